@@ -65,6 +65,12 @@ func bodyVariants(kind string, valid interface{}) []struct {
 	out = append(out, bv{"nonjson", nil, "this is {not json"})
 	out = append(out, bv{"unknown-type", M{"@context": AS, "type": "FrobnicateThing", "id": R1 + "/act/u1", "actor": carol()}, ""})
 	out = append(out, bv{"bare-object", withCtx(note(R1+"/notes/bare", M{"to": alice(), "attributedTo": carol()})), ""})
+	// JSON that is not an object, an object without type / @context, a type
+	// list naming nothing the vocabularies define
+	out = append(out, bv{"not-an-object", nil, pickRaw(kind, "null", "[]", "\"a string\"", "5")})
+	out = append(out, bv{"no-type", M{"@context": AS, "id": R1 + "/act/nt", "actor": carol()}, ""})
+	out = append(out, bv{"no-context", M{"type": "Like", "id": R1 + "/act/nc", "actor": carol(), "object": L + "/notes/1"}, ""})
+	out = append(out, bv{"unknown-type", M{"@context": AS, "type": A{"FrobnicateThing", "AlsoUnknown"}, "id": R1 + "/act/u2", "actor": carol()}, ""})
 	return out
 }
 
@@ -179,4 +185,9 @@ func productCorpus(seed int64) []corpusEntry {
 
 func (e expectation) String() string {
 	return fmt.Sprintf("%s ap=%s disabled=%v auth=%d block=%d body=%s method=%s", e.Endpoint, e.AP, e.Disabled, e.Auth, e.Block, e.BodyClass, e.Method)
+}
+
+// pickRaw rotates a raw body by endpoint so that both endpoints see several.
+func pickRaw(kind string, raws ...string) string {
+	return raws[len(kind)%len(raws)]
 }
